@@ -42,7 +42,7 @@ ASSUMPTIONS = [
 ]
 TRUSTED = ["z3", "pandas (concat / column selection on small concrete frames)"]
 
-OPS = ("update", "update2", "oracle", "oracle2", "oracle_badcols")
+OPS = ("update", "update2", "oracle", "oracle2", "oracle_badcols", "reset")
 
 
 class Clf:
@@ -121,19 +121,30 @@ def body_protocol(ctx, length, first_ops, explicit_len):
                     d.give_oracle_label(pd.DataFrame({"f1": [0.5 + step], "f2": [1.5], "y": [1]}))
                 elif op == "oracle2":
                     d.give_oracle_label(pd.DataFrame({"f1": [0.5, 0.6], "f2": [1.5, 1.6], "y": [1, 0]}))
+                elif op == "reset":
+                    if S["waiting"]:
+                        continue  # what a manual reset means while labels are awaited is not specified: not exercised
+                    d.reset()
                 else:
                     d.give_oracle_label(pd.DataFrame({"f1": [0.5], "other": [1.5], "y": [1]}))
             except ValueError:
                 raised = True
             # ---- specification
-            legal = (op == "update" and not S["waiting"]) or (op == "oracle" and S["waiting"])
+            legal = (op == "update" and not S["waiting"]) or (op == "oracle" and S["waiting"]) or op == "reset"
             ctx.prove(raised == (not legal), "refusals-exactly-as-documented")
             if raised:
                 same = states_equal(ctx, before_frames, dict(vars(d)))
                 ctx.prove(same, "refused-call-changes-nothing")
                 ctx.witness("refused-" + op)
                 continue
-            if op == "update":
+            if op == "reset":
+                # a manual reset is the reset the detector performs itself after a drift: tracking restarts from the
+                # reference margin density
+                S["state"], S["since"], S["md"] = None, 0, S["md_ref"]
+                ctx.prove(d.drift_state is None, "reset-clears-state")
+                ctx.prove(ctx.eq(d.curr_margin_density, S["md"]), "reset-restarts-from-reference-margin-density")
+                ctx.witness("manual-reset")
+            elif op == "update":
                 if S["state"] == "drift":
                     S["state"], S["since"], S["md"] = None, 0, S["md_ref"]
                 S["total"] += 1
